@@ -93,6 +93,10 @@ def build_facts(config="default+bzip2", repo=REPO, cache=CACHE, quiet=True, scra
         parent = os.path.dirname(out_dir)
         if os.path.isdir(parent):
             for d in os.listdir(parent):
+                # scratch copies are analysed by several self-test processes at once: a fact file another process was just handed
+                # (the lock is released on return) must survive until it has been read
+                if repo_tag == "scratch" and time.time() - os.path.getmtime(os.path.join(parent, d)) < 300:
+                    continue
                 shutil.rmtree(os.path.join(parent, d), ignore_errors=True)
         os.makedirs(out_dir, exist_ok=True)
         target = os.path.join(cache, "target-%s-%s" % (repo_tag, config))
